@@ -20,7 +20,7 @@ def plan(tier):
     N = 3 if tier == "quick" else 4
     for op in filterset.OPS:
         for n in range(N + 1):
-            pl.units.append(U("%s.n%d" % (op, n), "contracts.filterset", "h_op", (op, n)))
+            pl.units.append(U("%s.n%d" % (op, n), "contracts.filterset", "h_op", (op, n), native_ok=True, sample_models=True))
     pl.bounded = [bounded_sequences]
     pl.functions = [("sievelib.factory", "FiltersSet.%s" % m) for m in
                     ("filter_exists", "addfilter", "updatefilter", "replacefilter", "getfilter", "removefilter", "enablefilter",
@@ -37,6 +37,6 @@ def plan(tier):
         "list specification taken from the property text (update/replace keep position and status, move swaps with exactly "
         "one neighbour or refuses at the ends, unknown names change nothing, duplicates raise and change nothing, getfilter "
         "returns the own content of disabled filters); the representation invariant (unique names, flag = content shape = "
-        "is_filter_disabled) is re-established. Bounded: all sequences of 4 (quick) / 5 mutating operations over 2 names and "
+        "is_filter_disabled) is re-established. Bounded: all sequences of 4 mutating operations over 2 names and "
         "random sequences of 8 over 3 names against a list model, with rendering checks." % N)
     return pl
